@@ -136,8 +136,8 @@ theorem ci_step {ms0 : List Macro} {A : List Item} {O : List HTok} {H : HTok} {s
 /-- **The argument loop of `expandfunc`** on the text of an invocation whose arguments may name
 object-like macros: if it completes, it has consumed what `collect` cuts out of the text, and
 every stored argument is the complete macro replacement of its tokens (`ArgsRel`). -/
-theorem efLoopP (ms0 : List Macro) (hTb : TblOK ms0) (ps : List Param) (name : Name)
-    (hnv : ∀ p ∈ ps, p.fvar = false) :
+theorem efLoopP (ms0 : List Macro) (hTb : TblOKS ms0) (ps : List Param) (name : Name)
+    (hnv : ∀ p ∈ ps, p.fvar = false) (hex : ∀ p ∈ ps, ¬ (p.ftok = true ∧ p.fstr = true)) :
     ∀ (n : Nat), (∀ m, m < n → CallSpec ms0 m) →
     ∀ (e : EF) (st sF : St) (Lraw : List Tok) (pend : List Item) (CURraw CURexp : List Tok)
       (DONEraw args : List (List Tok)) (rest : List Tok),
@@ -152,13 +152,18 @@ theorem efLoopP (ms0 : List Macro) (hTb : TblOK ms0) (ps : List Param) (name : N
       (∀ Y, LinkE (tblF ms0) (CURraw.reverse.map (iP ms0) ++ Y) (CURexp.reverse.map (mkHp ms0 [])) (pend ++ Y)) ∧
       (CURraw ≠ [] → CURexp ≠ [] ∨ pend ≠ []) ∧ (∀ x ∈ CURexp, FlatP ms0 x)) →
     ((ps.getD e.i default).ftok = false → pend = []) →
+    ((ps.getD e.i default).fstr = true → e.str = CURraw.reverse.foldl stringize [c! '"']) →
     ∃ stL ARGS, GoodP ms0 stL ∧ stL.ctx = [] ∧ stL.raw = rest ∧
       sF = { stL with macros := setArgs stL.macros name ARGS } ∧ ArgsRel ms0 ps args ARGS := by
   intro n
   induction n with
   | zero => intro _ e st sF Lraw pend CURraw CURexp DONEraw args rest h; cases h
   | succ k ih0 =>
-    intro hcs e st sF Lraw pend CURraw CURexp DONEraw args rest h hps hname hd0 hi g hmode hcol hok hane hdl hdone hcur hci hnf
+    intro hcs e st sF Lraw pend CURraw CURexp DONEraw args rest h hps hname hd0 hi g hmode hcol hok hane hdl hdone hcur hci hnf hstr
+    have hpmem : ps.getD e.i default ∈ ps := by
+      rw [List.getD_eq_getElem?_getD, List.getElem?_eq_getElem hi]; exact List.getElem_mem hi
+    have hnostr : (ps.getD e.i default).ftok = true → (ps.getD e.i default).fstr = true → False :=
+      fun h1 h2 => hex _ hpmem ⟨h1, h2⟩
     have ih := ih0 (fun m hm => hcs m (by omega))
     change efLoopBody (exec k) e st = .ok sF at h
     have hne : e.t.kind ≠ .TEOF := by
@@ -187,18 +192,22 @@ theorem efLoopP (ms0 : List Macro) (hTb : TblOK ms0) (ps : List Param) (name : N
         -- the relation for the argument that ends here
         have hrel : ∀ a ∈ args, a ≠ [] → CURraw.reverse ∈ args →
             ArgRel ms0 (ps.getD DONEraw.reverse.length default) CURraw.reverse (curArg e) := by
-          intro _ _ _ hmem hft
-          rw [List.length_reverse, hdl] at hft
-          obtain ⟨h1, h2, h2f⟩ := hci hft
-          have hcure : e.cur = CURexp := by rw [hcur, if_pos hft]
-          refine ⟨?_, ?_, by simpa [curArg, hcure] using h2f⟩
-          · have := h1 []
-            simpa [curArg, hcure, hpend] using this
-          · have hne' : CURraw ≠ [] := by
-              intro hh; exact hane _ hmem (by rw [hh]; rfl)
-            rcases h2 hne' with h3 | h3
-            · simpa [curArg, hcure] using h3
-            · exact absurd hpend h3
+          intro _ _ _ hmem
+          rw [List.length_reverse, hdl]
+          refine ⟨fun hft => ?_, fun hfs => ?_⟩
+          · obtain ⟨h1, h2, h2f⟩ := hci hft
+            have hcure : e.cur = CURexp := by rw [hcur, if_pos hft]
+            refine ⟨?_, ?_, by simpa [curArg, hcure] using h2f⟩
+            · have := h1 []
+              simpa [curArg, hcure, hpend] using this
+            · have hne' : CURraw ≠ [] := by
+                intro hh; exact hane _ hmem (by rw [hh]; rfl)
+              rcases h2 hne' with h3 | h3
+              · simpa [curArg, hcure] using h3
+              · exact absurd hpend h3
+          · show (curArg e).str = _
+            unfold curArg
+            simp only [hps, hfs, ↓reduceIte, hstr hfs, stringizeAll]
         by_cases hf : e.t.kind = .TRPAREN ∨ e.i + 1 = ps.length
         · rw [if_pos hf] at hcol
           have h1 : ¬ e.i + 1 < ps.length := by intro hh; rw [if_pos hh] at hcol; cases hcol
@@ -252,7 +261,7 @@ theorem efLoopP (ms0 : List Macro) (hTb : TblOK ms0) (ps : List Param) (name : N
             have hcolN : collect ps (e.i + 1) e.paren [] (CURraw.reverse :: DONEraw) st.raw = .ok (args, rest) := by
               rw [hc.1]; exact hcol
             refine ih _ st1 sF st.raw (absX ms0 st []) [] [] (CURraw.reverse :: DONEraw) args rest h hps hname hdep
-              hi1 g1 hm hcolN hok' hane (by simp [hdl]) ?_ (by simp) ?_ (fun _ => habs0 [])
+              hi1 g1 hm hcolN hok' hane (by simp [hdl]) ?_ (by simp) ?_ (fun _ => habs0 []) (fun _ => rfl)
             · simp only [List.reverse_cons]
               exact hdone.snoc _ _ (by rw [List.length_reverse, hdl]; exact hi) (hrel _ hmem (hane _ hmem) hmem)
             · intro _
@@ -268,7 +277,7 @@ theorem efLoopP (ms0 : List Macro) (hTb : TblOK ms0) (ps : List Param) (name : N
         · have hp' : (e.m.params.getD e.i default).ftok = true := by rw [hps]; exact hp
           obtain ⟨hci1, hci2, hci3⟩ := hci hp
           have hcure : e.cur = CURexp := by rw [hcur, if_pos hp]
-          rcases hinv with ⟨htok, hok'⟩ | ⟨lp, r'', FG, argsG, rest'', hr, c1, c2, c3, c4, c5, c5', c6, c7, c8, c9⟩
+          rcases hinv with ⟨htok, hok'⟩ | ⟨lp, r'', FG, argsG, rest'', hr, c1, c2, c3, c4, c5, c5', c6, c7, c8, cs, c9⟩
           · have hhead := argsOK_head hok' hrl'
             cases hx : exec k (.expand e.t) st with
             | error er =>
@@ -312,6 +321,7 @@ theorem efLoopP (ms0 : List Macro) (hTb : TblOK ms0) (ps : List Param) (name : N
                     simpa [hpend, habs0, iP] using this) hsim
                 refine ih _ st2 sF st.raw (absX ms0 sx []) (e.t :: CURraw) (if sx.rb = true then CURexp else sx.rt :: CURexp)
                   DONEraw args rest h hps hname hdep hi g2 hm hcol' hok' hane hdl hdone ?_ ?_ (fun hh => by rw [hp] at hh; cases hh)
+                  (fun hf => (hnostr hp hf).elim)
                 · simp only [hp, ↓reduceIte, hcure]
                 · intro _
                   refine ⟨fun Y => ?_, fun _ => ?_, ?_⟩
@@ -374,6 +384,7 @@ theorem efLoopP (ms0 : List Macro) (hTb : TblOK ms0) (ps : List Param) (name : N
                   rw [hnp]; exact hcol2
                 refine ih _ st2 sF rest'' (absX ms0 sx []) ((r''.take (r''.length - rest''.length)).reverse ++ lp :: e.t :: CURraw)
                   CURexp DONEraw args rest h hps hname hdep hi g2 hm hcol3 c9 hane hdl hdone ?_ ?_ (fun hh => by rw [hp] at hh; cases hh)
+                  (fun hf => (hnostr hp hf).elim)
                 · simp only [hp, ↓reduceIte, hcure, hrbx]
                 · intro _
                   refine ⟨fun Y => ?_, fun _ => ?_, hci3⟩
@@ -392,11 +403,11 @@ theorem efLoopP (ms0 : List Macro) (hTb : TblOK ms0) (ps : List Param) (name : N
           have hp' : (e.m.params.getD e.i default).ftok = false := by rw [hps]; exact hpf
           have hcure : e.cur = [] := by rw [hcur, if_neg hp]
           have hok' : ArgsOK ms0 st.raw rest := by
-            rcases hinv with ⟨_, h'⟩ | ⟨lp, r'', FG, argsG, rest'', hr, c1, c2, c3, c4, c5, c5', c6, c7, c8, c9⟩
+            rcases hinv with ⟨_, h'⟩ | ⟨lp, r'', FG, argsG, rest'', hr, c1, c2, c3, c4, c5, c5', c6, c7, c8, cs, c9⟩
             · exact h'
             · rw [hr]
               refine .tok lp r'' rest ⟨by rw [c5]; decide, by rw [c5]; decide, by rw [c5]; decide, by rw [c5]; decide, ?_, c5'⟩
-                (c7.trans c9)
+                cs.2 (c7.trans c9)
               intro hf; have := hf.1; rw [c5] at this; cases this
           have hhead := argsOK_head hok' hrl'
           cases ha : exec k (.argLoop false) st with
@@ -409,9 +420,14 @@ theorem efLoopP (ms0 : List Macro) (hTb : TblOK ms0) (ps : List Param) (name : N
             have hm := modeAfter ms0 st st2
               { e with depth := st.depth, paren := nextParen e, str := nextStr e, t := st2.rt } hR rfl
             refine ih _ st2 sF st.raw (absX ms0 st []) (e.t :: CURraw) CURexp DONEraw args rest h hps hname hdep hi g2 hm
-              hcol' hok' hane hdl hdone ?_ (fun hh => by rw [hpf] at hh; cases hh) (fun _ => habs0 [])
-            show e.cur = _
-            rw [hcure, hpf]; rfl
+              hcol' hok' hane hdl hdone ?_ (fun hh => by rw [hpf] at hh; cases hh) (fun _ => habs0 []) ?_
+            · show e.cur = _
+              rw [hcure, hpf]; rfl
+            · intro hf
+              show nextStr e = _
+              unfold nextStr
+              rw [hps, hf, if_pos rfl, hstr hf]
+              simp [List.foldl_append]
     · -- inside the replacement of a macro named in the argument
       subst hL
       have hdep : 0 < st.depth := by
@@ -469,6 +485,7 @@ theorem efLoopP (ms0 : List Macro) (hTb : TblOK ms0) (ps : List Param) (name : N
               simpa [absX_append] using this) hsim
           refine ih _ st2 sF st.raw (absX ms0 sx []) CURraw (if sx.rb = true then CURexp else sx.rt :: CURexp)
             DONEraw args rest h hps hname hd0 hi g2 hm hcol hok hane hdl hdone ?_ ?_ (fun hh => by rw [hp] at hh; cases hh)
+            (fun hf => (hnostr hp hf).elim)
           · simp only [hp, ↓reduceIte, hcure]
           · intro _
             refine ⟨fun Y => ?_, fun _ => ?_, ?_⟩
